@@ -101,7 +101,9 @@ def generate(rng, tier):
     # fresh: the neighbour call-back hands out equal but not identical label objects (labels computed on the fly)
     case = {"fn": fn, "n": n, "adj": adj, "labels": labels, "order": order, "kw": {}, "fresh": rng.random() < 0.5,
             # the signatures take Iterables: a one-shot iterator / generator is as legal as a list
-            "nodes_as": rng.choice(["list", "list", "iter", "gen", "tuple"]), "nbrs_as": rng.choice(["list", "list", "iter", "gen"])}
+            "nodes_as": rng.choice(["list", "list", "iter", "gen", "tuple"]), "nbrs_as": rng.choice(["list", "list", "iter", "gen"]),
+            # the same call-back object and the same node sequence 0..n-1 as earlier cases of this worker, over a different graph
+            "shared_callable": rng.random() < 0.2}
     if fn == "kcore":
         case["kw"] = {"k": rng.randrange(-1, 6)}
     elif fn == "pagerank":
@@ -239,9 +241,19 @@ def modularity(case, parts, resolution):
 # ------------------------------------------------------------------------------------------- execution
 
 
+_SHARED_TABLE: dict = {}
+
+
+def _shared_lookup(v):
+    """ONE call-back object for many graphs (think `graph.neighbors` of a graph object that changes between analyses)."""
+    return _SHARED_TABLE[v]
+
+
 def execute(case) -> Outcome:
     o = Outcome()
     budget.install(["solvor.articulation", "solvor.kcore", "solvor.pagerank", "solvor.community"])
+    if case.get("shared_callable"):
+        case = dict(case, labels=list(range(case["n"])), order=list(range(case["n"])), fresh=False, nodes_as="list", nbrs_as="list")
     n, fn = case["n"], case["fn"]
     L = [tuple(l) if isinstance(l, list) else l for l in case["labels"]]
     idx = {L[i]: i for i in range(n)}
@@ -257,6 +269,10 @@ def execute(case) -> Outcome:
         lookup = lambda v: [clone(w) for w in table[v]]
     else:
         lookup = lambda v: table[v]
+    if case.get("shared_callable"):
+        _SHARED_TABLE.clear()
+        _SHARED_TABLE.update(table)
+        lookup = _shared_lookup
     asym = any((u not in case["adj"][v]) for u, a in enumerate(case["adj"]) for v in a if v != u)
     key = dict(target=fn, asymmetric=asym)
     mod = {"articulation_points": "articulation", "bridges": "articulation", "kcore_decomposition": "kcore", "kcore": "kcore",
